@@ -19,6 +19,20 @@ presented values (one function of the state: f_presented) and, in the search, wi
 integers under the current scaling (the file's integers and scaling are taken from the bytes, not through laspy); an object
 derived from the record must hold the record's integers, and its scaling when it is a part of that record; reading
 coordinates must not change the LasData.
+Sessions (round 4): a LasWriter (laspy.open(mode="w") or the class) or a LasAppender is kept OPEN while the history goes on:
+opened with the LasData's own header object or with another header the caller keeps (and edits, op WE), then chunks (WW)
+interleaved with in-place and replacing edits of the caller's header and of the record's scaling (las.points.scales = / [i] =),
+assignments, change_scaling, other writes, then close (WC). The model (Model/Scaling.v section 4: sst / sstep) gives the writer
+its own arrays iff the source deep-copies the header (gen_writer_copies_header); theorems C11_session_*: whatever happens in
+between, every chunk is rescaled to, and the file carries, the scaling of the opening. The oracle judges the file's scaling (from
+the bytes) and every chunk's integers against the scaling observed at the opening and the coordinates presented just before
+each chunk.
+Values (round 4): every assignment route (las.x =, las['x'] =, las.points['x'] =, las.points.x =, las.x[:] =, las.x[key] = for
+int / slice / mask / list keys on las.x, las['x'], las.points.x, las.points['x'], las.xyz =, las[['x','y','z']] =) with a value
+that is an array / list / tuple / float32 array / scalar, a scaled view of the same record (itself, reversed slice, fancy index),
+a scaled view or a slice of one of ANOTHER LasData / record whose scale and offset are equal, equal in scale only, or different,
+a sub-field view. The model takes a view by what it presents (vsrc_vals); the oracle computes the coordinates the value presents
+by the law in binary64 and requires the nearest integers under the scaling in force (the header's for las.x =, else the record's).
 Search: the property stated on the implementation with exact rationals (no model)."""
 import io
 import math
@@ -38,7 +52,13 @@ ASSUMPTIONS = [
     "some points (las[1:]) has a header of its own and takes that header's scaling - only its own integers and its own law are checked "
     "(with a pending header edit its coordinates differ from las.x[1:]: outside the statement, reported as a note)",
     "np.asarray(las.points[i].x) (a one-point record) raises in laspy (its __array__ returns a scalar): that record is presented through scaled_array()",
-    "the binary64 half-step bound is measured (exact rational bound + |x - offset| * 2^-51), not proved; the proved bound is the exact one over Q and the half-ulp bound of each rounding",
+    "the binary64 half-step bound is PROVED for the Gallina binary64 model (C11_roundtrip_float_bound: |present(store v) - v| <= s/2 + "
+    "2^-53 (3|v-o| + 7|X|s + |o|) + 5(1+s)2^-1075; C11_store_float_bound: |X - q| <= 1/2 + 3*2^-53|q| + subnormal terms, which implies the "
+    "oracle's tolerance 1/2 + 2^-51|q|); that numpy's float64 operations are the modelled round-to-nearest-even ones is checked bit-exactly by the correspondence",
+    "an open writer / appender session is one writer at a time; a chunk is one write_points / append_points call with the whole record of the "
+    "LasData; the header object handed to a writer (when it is not the LasData's own) is not part of the model's state: edits of it must change nothing",
+    "a value that is a view is evaluated (Python evaluates the right-hand side first) before the assignment modifies anything; "
+    "las.<axis>[i] = value takes one number (an element of the view / array)",
 ]
 
 INT_MIN, INT_MAX = -2 ** 31, 2 ** 31 - 1
@@ -426,6 +446,31 @@ def file_presentations(data):
     return st
 
 
+def key_positions(key, n, at=0):
+    """the points a key of las.<axis>[key] = ... selects"""
+    if key == "int":
+        return [at]
+    if key == "slice1":
+        return list(range(1, n))
+    if key == "step2":
+        return list(range(0, n, 2))
+    if key == "mask":
+        return [i for i in range(n) if i % 2 == (n - 1) % 2]
+    return list(range(n - 1, -1, -1))
+
+
+def key_object(key, n, at=0):
+    if key == "int":
+        return at
+    if key == "slice1":
+        return slice(1, None)
+    if key == "step2":
+        return slice(None, None, 2)
+    if key == "mask":
+        return np.array([i % 2 == (n - 1) % 2 for i in range(n)], dtype=bool)
+    return list(range(n - 1, -1, -1))
+
+
 class History:
     """one LasData driven through operations; records (op token, outcome, snapshot after) and the oracle's observations"""
 
@@ -457,14 +502,44 @@ class History:
             self.las.points.array[d] = np.array(col, dtype=np.int32)
         self.n = init["n"]
         self.steps = []          # (op dict, outcome, snapshot after)
+        self.sess = None         # the open writer / appender session
         self.snap0 = snapshot(self.las)
         self.last = self.snap0
-        self.obs = [({"op": "INIT"}, self.snap0, ("none",), self.snap0)]            # oracle observations
+        self.obs = [({"op": "INIT"}, self.snap0, ("none",), self.snap0, None)]            # oracle observations
 
     # ---- op generation (online: values are chosen relative to the current scaling) ----
     def gen_op(self):
         rng = self.rng
         las = self.las
+        if self.sess is not None:
+            # a writer is open: chunks, edits of the header it was given (in place: the shared-object case), close
+            r = rng.random()
+            if r < 0.26:
+                return {"op": "WW"}
+            if r < 0.36:
+                return {"op": "WC", "how": rng.choice(["close", "close", "with", "exc"])}
+            if r < 0.46 and self.sess["hdr"] is not None:
+                what = rng.choice(["scale", "offset"])
+                return {"op": "WE", "axis": rng.randrange(3), "what": what, "inplace": rng.random() < 0.7,
+                        "v": gen_scale(rng) if what == "scale" else gen_offset(rng)}
+            if r < 0.58:
+                if rng.random() < 0.5:
+                    return {"op": "MS", "axis": rng.randrange(3), "v": gen_scale(rng), "el": rng.random() < 0.4, "np": rng.random() < 0.3}
+                return {"op": "MO", "axis": rng.randrange(3), "v": gen_offset(rng), "el": rng.random() < 0.4, "np": rng.random() < 0.3}
+        elif rng.random() < 0.09:
+            return self.gen_open()
+        r = rng.random()
+        if r < 0.16:
+            return self.gen_assign_value()
+        if r < 0.19:
+            return self.gen_items()
+        if r < 0.25:
+            k = rng.choice(["PRS", "PRO", "PMS", "PMO"])
+            if k == "PRS":
+                return {"op": k, "a": [float(x) for x in las.header.scales] if rng.random() < 0.3 else [gen_scale(rng) for _ in range(3)]}
+            if k == "PRO":
+                return {"op": k, "a": [float(x) for x in las.header.offsets] if rng.random() < 0.3 else [gen_offset(rng) for _ in range(3)]}
+            return {"op": k, "axis": rng.randrange(3), "v": gen_scale(rng) if k == "PMS" else gen_offset(rng)}
         r = rng.random()
         if r < 0.12:
             a = [gen_scale(rng) for _ in range(3)]
@@ -535,22 +610,255 @@ class History:
         wo = [cur_o[i] if rng.random() < 0.5 else gen_offset(rng) for i in range(3)]
         return {"op": "S", "ws": ws, "wo": wo, "chunk": rng.choice([0, 0, 1, 2]), "via": rng.choice(["writer", "writer", "appender", "appender0"])}
 
+    def gen_open(self):
+        rng = self.rng
+        las = self.las
+        via = rng.choice(["open", "open", "LasWriter", "appender"])
+        hdr = "own" if via == "appender" else rng.choice(["caller", "caller", "own"])
+        op = {"op": "WO", "via": via, "hdr": hdr}
+        if hdr == "own":
+            cur_s = [float(x) for x in las.points.scales]
+            cur_o = [float(x) for x in las.points.offsets]
+            ws = [cur_s[i] * rng.choice([1, 1, 10, 100, 0.1, 0.5, 2]) if rng.random() < 0.7 else gen_scale(rng) for i in range(3)]
+            op["ws"] = [min(1e3, max(1e-9, x)) for x in ws]
+            op["wo"] = [cur_o[i] if rng.random() < 0.5 else gen_offset(rng) for i in range(3)]
+            k = rng.choice([0, 1, 2]) if via == "appender" else 0
+            op["pre"] = [[rng.choice([0, 1, -1, INT_MAX, INT_MIN, rng.randrange(-10 ** 6, 10 ** 6)]) for _ in range(k)] for _ in range(3)]
+        return op
+
+    def near_grid(self, s, o, m, bad):
+        rng = self.rng
+        vals = []
+        for _ in range(m):
+            if bad and rng.random() < 0.6:
+                vals.append(gen_value(rng, s, o)[0])
+            else:
+                X = rng.choice([0, 1, -1, rng.randrange(-10 ** 5, 10 ** 5), rng.randrange(-10 ** 5, 10 ** 5), INT_MAX, INT_MIN])
+                vals.append(float(Fraction(o) + (Fraction(X) + Fraction(rng.randrange(-49, 50), 100)) * Fraction(s)))
+        return vals
+
+    def gen_source(self, m, s, o, positions):
+        """the value of an assignment of m coordinates under the scaling (s, o) in force: a plain array / list, a scaled view of
+        this record, a scaled view (or a slice of one) of another LasData / record with the same or another scale / offset,
+        a sub-field view"""
+        rng = self.rng
+        kind = rng.choice(["other", "other", "other", "self", "self", "vals", "subfield"])
+        if kind == "self" and self.n == 0:
+            kind = "other"
+        if kind == "vals":
+            return {"k": "vals", "vals": self.near_grid(s, o, m, rng.random() < 0.25), "form": rng.choice(["array", "list", "tuple", "f32"])}
+        if kind == "subfield":
+            return {"k": "subfield", "vals": [rng.randrange(0, 8) for _ in range(m)]}
+        if kind == "self":
+            b = rng.randrange(3)
+            r = rng.random()
+            if m == self.n and r < 0.35:
+                return {"k": "self", "axis": b, "idx": list(range(m)), "how": "view"}
+            if m == self.n and r < 0.6:
+                return {"k": "self", "axis": b, "idx": list(range(m - 1, -1, -1)), "how": "rev"}
+            if positions is not None and r < 0.8:
+                return {"k": "self", "axis": b, "idx": list(positions), "how": "fancy"}
+            return {"k": "self", "axis": b, "idx": [rng.randrange(self.n) for _ in range(m)], "how": "fancy"}
+        # another record: the same grid, the same step around another origin, another step
+        r = rng.random()
+        s2 = s if r < 0.6 else min(1e3, max(1e-9, s * rng.choice([10, 0.1, 2, 0.5, 100]))) if r < 0.85 else gen_scale(rng)
+        r = rng.random()
+        if r < 0.25:
+            o2 = o
+        elif r < 0.7:
+            o2 = float(Fraction(o) + rng.choice([1, -1, 7, 1000, -120000, rng.randrange(-10 ** 6, 10 ** 6)]) * Fraction(s))
+        else:
+            o2 = gen_offset(rng)
+        if not (abs(o2) <= 1e9):
+            o2 = o
+        ints = []
+        wild = rng.random() < 0.15
+        for _ in range(m):
+            if wild and rng.random() < 0.5:
+                ints.append(rng.choice([INT_MAX, INT_MIN, rng.randrange(INT_MIN, INT_MAX + 1)]))
+            else:
+                Xd = rng.choice([0, 1, -1, rng.randrange(-10 ** 5, 10 ** 5), rng.randrange(-10 ** 5, 10 ** 5), INT_MAX, INT_MIN])
+                X2 = rhe((Fraction(Xd) * Fraction(s) + Fraction(o) - Fraction(o2)) / Fraction(s2))
+                ints.append(max(INT_MIN, min(INT_MAX, X2)))
+        return {"k": "other", "ints": ints, "s": s2, "o": o2, "on": rng.randrange(3), "how": rng.choice(["las", "las", "rec", "slice", "item"])}
+
+    def gen_assign_value(self):
+        """an assignment by any route, of any kind of value"""
+        rng = self.rng
+        las = self.las
+        n = self.n
+        route = rng.choice(["attr", "attr", "item", "pitem", "pattr", "viewall", "view"])
+        if route == "view" and n == 0:
+            route = "viewall"
+        axis = rng.randrange(3)
+        S, O = (las.header.scales, las.header.offsets) if route == "attr" else (las.points.scales, las.points.offsets)
+        s, o = float(S[axis]), float(O[axis])
+        op = {"op": "V", "route": route, "axis": axis}
+        positions = None
+        if route == "view":
+            key = rng.choice([k for k in ("int", "slice1", "step2", "mask", "list") if n >= 2 or k in ("int", "step2", "list")])
+            op["key"] = key
+            op["at"] = rng.randrange(n)
+            positions = key_positions(key, n, op["at"])
+            op["target"] = rng.choice(["las.x", "las['x']", "las.points.x", "las.points['x']"])
+            m = len(positions)
+        else:
+            m = n
+            if route in ("attr", "item", "pitem") and rng.random() < (0.8 if n == 0 else 0.15):
+                m = n + rng.choice([1, 2, 3])
+            elif route in ("pattr", "viewall") and n >= 2 and rng.random() < 0.05:
+                m = n + 1                                  # cannot be broadcast: must raise, nothing stored
+            if route == "viewall":
+                op["target"] = rng.choice(["las.x", "las['x']", "las.points.x", "las.points['x']"])
+        src = self.gen_source(m, s, o, positions)
+        if route == "view" and op["key"] == "int" and src["k"] == "vals":
+            src["form"] = rng.choice(["scalar", "npscalar", "array"])
+        elif route in ("pattr", "viewall") and src["k"] == "vals" and m == n and n > 0 and rng.random() < 0.3:
+            src = {"k": "vals", "vals": [src["vals"][0]] * n, "form": rng.choice(["scalar", "npscalar"])}
+        op["src"] = src
+        return op
+
+    def gen_items(self):
+        """las[['x', 'y', 'z']] = (m, 3) array / las.points[('x', 'y', 'z')] = ... : the record's own scaling"""
+        rng = self.rng
+        las = self.las
+        m = self.n
+        if rng.random() < (0.8 if self.n == 0 else 0.15):
+            m = self.n + rng.choice([1, 2, 3])
+        bad = rng.random() < 0.2
+        cols = [self.near_grid(float(las.points.scales[a]), float(las.points.offsets[a]), m, bad and rng.random() < 0.5) for a in range(3)]
+        return {"op": "SX", "cols": cols, "target": rng.choice(["las", "points", "points-tuple", "struct"])}
+
     # ---- op execution ----
+    def build_value(self, src):
+        """the Python object assigned, and for a view of another record: (its owner's state before, a function giving its state now)"""
+        import laspy
+        las = self.las
+        k = src["k"]
+        if k == "vals":
+            f = src.get("form", "array")
+            if f == "scalar":
+                return src["vals"][0], None
+            if f == "npscalar":
+                return np.float64(src["vals"][0]), None
+            if f == "list":
+                return [float(v) for v in src["vals"]], None
+            if f == "tuple":
+                return tuple(float(v) for v in src["vals"]), None
+            a = np.array(src["vals"], dtype=np.float64)
+            with np.errstate(over="ignore"):
+                if f == "f32" and all(float(np.float32(v)) == v for v in src["vals"]):
+                    a = a.astype(np.float32)
+            return a, None
+        if k == "subfield":
+            rec = laspy.PackedPointRecord.zeros(len(src["vals"]), laspy.PointFormat(self.fmt))
+            rec.return_number = np.array(src["vals"], dtype=np.uint8)
+            return rec.return_number, None
+        if k == "self":
+            v = getattr(las, AX[src["axis"]])
+            if src["how"] == "view":
+                return v, None
+            if src["how"] == "rev":
+                return v[::-1], None
+            return v[list(src["idx"])], None
+        # another record holding src["ints"] under (s, o) on the assigned axis' own dimension
+        how = src["how"]
+        ints = list(src["ints"])
+        lead = 1 if how == "slice" else 0
+        a = src.get("on", 0)
+        sc = [1.0, 1.0, 1.0]
+        of = [0.0, 0.0, 0.0]
+        sc[a], of[a] = src["s"], src["o"]
+        if how == "rec":
+            owner = new_record(len(ints) + lead, sc, of, self.fmt)
+            rec = owner
+        else:
+            hdr = laspy.LasHeader(point_format=self.fmt, version=self.version)
+            hdr.scales = np.array(sc, dtype=np.float64)
+            hdr.offsets = np.array(of, dtype=np.float64)
+            owner = laspy.LasData(hdr, laspy.PackedPointRecord.zeros(len(ints) + lead, hdr.point_format))
+            rec = owner.points
+        rec.array["XYZ"[a]] = np.array([7] * lead + ints, dtype=np.int32)
+        view = owner[AX[a]] if how == "item" else getattr(owner, AX[a])
+        if lead:
+            view = view[1:]
+        state = lambda: (rec.array.tobytes(), fls(rec.scales), fls(rec.offsets))   # noqa: E731
+        return view, (state(), state, fls(np.asarray(view)))
+
     def apply(self, op):
         import laspy
         las = self.las
         kind = op["op"]
         before = self.last       # nothing happens between two operations: the snapshot taken after the previous one
         out = ("none",)
+        info = None
         try:
             if kind == "RS":
                 las.header.scales = np.array(op["a"], dtype=np.float64)
             elif kind == "RO":
                 las.header.offsets = np.array(op["a"], dtype=np.float64)
             elif kind == "MS":
-                setattr(las.header, AX[op["axis"]] + "_scale", op["v"])
+                v = np.float64(op["v"]) if op.get("np") else op["v"]
+                if op.get("el"):
+                    las.header.scales[op["axis"]] = v
+                else:
+                    setattr(las.header, AX[op["axis"]] + "_scale", v)
             elif kind == "MO":
-                setattr(las.header, AX[op["axis"]] + "_offset", op["v"])
+                v = np.float64(op["v"]) if op.get("np") else op["v"]
+                if op.get("el"):
+                    las.header.offsets[op["axis"]] = v
+                else:
+                    setattr(las.header, AX[op["axis"]] + "_offset", v)
+            elif kind == "PRS":
+                las.points.scales = np.array(op["a"], dtype=np.float64)
+            elif kind == "PRO":
+                las.points.offsets = np.array(op["a"], dtype=np.float64)
+            elif kind == "PMS":
+                las.points.scales[op["axis"]] = op["v"]
+            elif kind == "PMO":
+                las.points.offsets[op["axis"]] = op["v"]
+            elif kind == "V":
+                info = self.assign_value(op)
+            elif kind == "SX":
+                arr = np.array(op["cols"], dtype=np.float64).T.reshape(-1, 3)
+                if op["target"] == "struct":      # a structured array: one named field per dimension
+                    rec = np.zeros(len(arr), dtype=[("x", "f8"), ("y", "f8"), ("z", "f8")])
+                    for i_, nm_ in enumerate(AX):
+                        rec[nm_] = arr[:, i_]
+                    las[["x", "y", "z"]] = rec
+                elif op["target"] == "las":
+                    las[["x", "y", "z"]] = arr
+                elif op["target"] == "points":
+                    las.points[["x", "y", "z"]] = arr
+                else:
+                    las.points[("x", "y", "z")] = arr
+            elif kind == "WO":
+                self.open_session(op)
+            elif kind == "WE":
+                self.edit_handed_header(op)
+            elif kind == "WW":
+                info = self.session_info()
+                if self.sess is not None:
+                    w = self.sess["w"]
+                    (w.append_points if self.sess["via"] == "appender" else w.write_points)(las.points)
+                    self.sess["chunks"].append({"xyz": before["xyz"], "ints": before["ints"], "rs": before["rs"], "ro": before["ro"]})
+            elif kind == "WC":
+                info = self.session_info()
+                if self.sess is not None:
+                    sess, self.sess = self.sess, None
+                    how = op.get("how", "close")
+                    if how == "close":
+                        sess["w"].close()
+                    elif how == "with":
+                        sess["w"].__exit__(None, None, None)
+                    else:                       # the with block is left by an exception of the caller's
+                        try:
+                            with sess["w"]:
+                                raise KeyError("caller's own error")
+                        except KeyError:
+                            pass
+                    data = sess["bio"].getvalue()
+                    out = ("file", read_file(data), sess["ws0"], sess["wo0"], file_presentations(data), 0)
             elif kind in ("A", "P"):
                 tgt = las if kind == "A" else las.points
                 val = op["vals"][0] if op.get("scalar") else np.array(op["vals"], dtype=np.float64)
@@ -569,12 +877,97 @@ class History:
                 out = self.stream(op)
         except Exception as ex:
             out = ("err", common.exc_kind(ex), str(ex)[:80])
+            if kind == "V":
+                info = self.vinfo
         after = snapshot(las)
         self.last = after
         self.n = len(las.points)
         self.steps.append((op, out, after))
-        self.obs.append((op, before, out, after))
+        self.obs.append((op, before, out, after, info))
         return out
+
+    def assign_value(self, op):
+        las = self.las
+        op["n_at"] = len(las.points)
+        value, owner = self.build_value(op["src"])
+        self.vinfo = info = {"shown": owner[2] if owner else None, "owner_changed": False}
+        nm = AX[op["axis"]]
+        route = op["route"]
+        if route == "view" and op["key"] == "int" and not isinstance(value, (float, np.floating)):
+            value = value[0]            # one point takes one number: an element of the view (its scaled value) or of the array
+        try:
+            if route == "attr":
+                setattr(las, nm, value)
+            elif route == "item":
+                las[nm] = value
+            elif route == "pitem":
+                las.points[nm] = value
+            elif route == "pattr":
+                setattr(las.points, nm, value)
+            else:
+                tg = op.get("target", "las.x")
+                view = (getattr(las, nm) if tg == "las.x" else las[nm] if tg == "las['x']" else getattr(las.points, nm) if tg == "las.points.x"
+                        else las.points[nm])
+                if route == "viewall":
+                    view[:] = value
+                else:
+                    view[key_object(op["key"], len(las.points), op.get("at", 0))] = value
+        finally:
+            if owner:
+                info["owner_changed"] = owner[1]() != owner[0]
+        return info
+
+    def session_info(self):
+        s = self.sess
+        if s is None:
+            return None
+        return {"ws0": s["ws0"], "wo0": s["wo0"], "chunks": list(s["chunks"]), "pre": s["pre"], "via": s["via"], "hdr": s["hdrkind"]}
+
+    def open_session(self, op):
+        import laspy
+        las = self.las
+        if self.sess is not None:       # only in shrunk / replayed histories: the previous writer is dropped
+            self.sess = None
+        bio = io.BytesIO()
+        pre = [[], [], []]
+        handed = None
+        if op["hdr"] == "caller":
+            hdr = las.header
+            ws0, wo0 = frs(las.header.scales), frs(las.header.offsets)
+        else:
+            hdr = laspy.LasHeader(point_format=self.fmt, version=self.version)
+            hdr.scales = np.array(op["ws"], dtype=np.float64)
+            hdr.offsets = np.array(op["wo"], dtype=np.float64)
+            ws0, wo0 = frs(op["ws"]), frs(op["wo"])
+            handed = hdr
+        if op["via"] == "appender":
+            pre = [list(c) for c in op["pre"]]
+            with laspy.open(bio, mode="w", header=hdr, closefd=False) as w0:
+                if pre[0]:
+                    first = laspy.ScaleAwarePointRecord.zeros(len(pre[0]), header=hdr)
+                    for d, col in zip("XYZ", pre):
+                        first.array[d] = np.array(col, dtype=np.int32)
+                    w0.write_points(first)
+            bio.seek(0)
+            w = laspy.open(bio, mode="a", closefd=False)
+        elif op["via"] == "LasWriter":
+            w = laspy.LasWriter(bio, hdr, closefd=False)
+        else:
+            w = laspy.open(bio, mode="w", header=hdr, closefd=False)
+        self.sess = {"w": w, "bio": bio, "ws0": ws0, "wo0": wo0, "chunks": [], "pre": pre, "via": op["via"], "hdr": handed, "hdrkind": op["hdr"]}
+
+    def edit_handed_header(self, op):
+        """the caller goes on using the header object it handed to the writer (not the LasData's own header)"""
+        if self.sess is None or self.sess["hdr"] is None:
+            return
+        h = self.sess["hdr"]
+        arr = "scales" if op["what"] == "scale" else "offsets"
+        if op["inplace"]:
+            getattr(h, arr)[op["axis"]] = op["v"]
+        else:
+            a = np.array(getattr(h, arr), dtype=np.float64)
+            a[op["axis"]] = op["v"]
+            setattr(h, arr, a)
 
     def stream(self, op):
         import laspy
@@ -622,13 +1015,40 @@ class History:
             return f"C:{'-' if op['s'] is None else ftoks(op['s'])}:{'-' if op['o'] is None else ftoks(op['o'])}"
         if k == "W":
             return "W"
+        if k in ("PRS", "PRO"):
+            return f"{k}:{ftoks(op['a'])}"
+        if k in ("PMS", "PMO"):
+            return f"{k}:{op['axis']}:{ftok(op['v'])}"
+        if k == "SX":
+            return "SX:" + ":".join(ftoks(c) for c in op["cols"])
+        if k == "V":
+            src = op["src"]
+            if src["k"] in ("vals", "subfield"):
+                v = "v=" + ftoks(src["vals"])
+            elif src["k"] == "self":
+                v = f"s={src['axis']}={zl(src['idx'])}"
+            else:
+                v = f"o={zl(src['ints'])}={ftok(src['s'])}={ftok(src['o'])}"
+            r = op["route"]
+            if r == "view":
+                return f"SV:{op['axis']}:{zl(key_positions(op['key'], op['n_at'], op.get('at', 0)))}:{v}"
+            return f"{'SA' if r == 'attr' else 'SI' if r in ('item', 'pitem') else 'SP'}:{op['axis']}:{v}"
+        if k == "WO":
+            if op["hdr"] == "caller":
+                return "WO"
+            return f"WO:{ftoks(op['ws'])}:{ftoks(op['wo'])}:{';'.join(zl(c) for c in op['pre'])}"
+        if k == "WE":
+            return None          # the header object handed to the writer is not part of the model's state: nothing may change
+        if k in ("WW", "WC"):
+            return k
         return f"S:{ftoks(op['ws'])}:{ftoks(op['wo'])}"
 
     def command(self):
         i = self.init
         cols = ";".join(zl(c) for c in i["cols"])
-        ops = "|".join(self.op_tok(op) for op, _, _ in self.steps) or "-"
-        return f"hist {ftoks(i['scales'])} {ftoks(i['offsets'])} {cols} {ops}"
+        toks = [self.op_tok(op) for op, _, _ in self.steps]
+        ops = "|".join(x for x in toks if x is not None) or "-"
+        return f"shist {ftoks(i['scales'])} {ftoks(i['offsets'])} {cols} {ops}"
 
 
 def parse_state(tok):
@@ -646,6 +1066,14 @@ def parse_out(tok):
         return ("err", f[1])
     return ("file", {"scales": tokfs(f[1]), "offsets": tokfs(f[2]),
                      "ints": [[] if c == "-" else [int(v) for v in c.split(",")] for c in f[3].split(";")]})
+
+
+def scale_in_force(op, h, i):
+    """(scale, offset) as floats under which step i of h assigns (the header's for las.<axis> = ..., the record's otherwise)"""
+    b = h.snap0 if i == 0 else h.steps[i - 1][2]
+    a = op["axis"]
+    s, o = (b["hs"][a], b["ho"][a]) if op["route"] == "attr" else (b["rs"][a], b["ro"][a])
+    return (float(s) if s is not None else None, float(o) if o is not None else None)
 
 
 STATE_KEYS = ("ints", "rs", "ro", "hs", "ho", "alias_s", "alias_o", "xyz")
@@ -685,27 +1113,28 @@ def routes_diff(mxyz, mrs, mro, im):
 
 
 def op_json(op):
-    d = {}
-    for k, v in op.items():
+    """floats travel as hex strings (exact), everything else as it is"""
+    def enc(v):
         if isinstance(v, float):
-            d[k] = v.hex()
-        elif isinstance(v, list):
-            d[k] = [x.hex() if isinstance(x, float) else [y.hex() for y in x] if isinstance(x, list) else x for x in v]
-        else:
-            d[k] = v
-    return d
+            return v.hex()
+        if isinstance(v, dict):
+            return {k: enc(x) for k, x in v.items()}
+        if isinstance(v, (list, tuple)):
+            return [enc(x) for x in v]
+        return v
+    return enc(op)
 
 
 def op_unjson(d):
-    op = {}
-    for k, v in d.items():
-        if isinstance(v, str) and k not in ("op", "via"):
-            op[k] = float.fromhex(v)
-        elif isinstance(v, list):
-            op[k] = [float.fromhex(x) if isinstance(x, str) else [float.fromhex(y) for y in x] if isinstance(x, list) else x for x in v]
-        else:
-            op[k] = v
-    return op
+    def dec(v):
+        if isinstance(v, str) and (v.startswith("0x") or v.startswith("-0x")):
+            return float.fromhex(v)
+        if isinstance(v, dict):
+            return {k: dec(x) for k, x in v.items()}
+        if isinstance(v, list):
+            return [dec(x) for x in v]
+        return v
+    return dec(d)
 
 
 def init_json(i):
@@ -865,7 +1294,112 @@ def oracle_file(out, what):
     return None
 
 
-def oracle_step(op, before, out, after):
+def src_expected(src, before):
+    """the coordinates a value presents, one per point assigned (Fractions): what the assignment must store the nearest integers of"""
+    k = src["k"]
+    if k in ("vals", "subfield"):
+        return [fr(v) for v in src["vals"]]
+    if k == "self":
+        col = before["xyz"][src["axis"]]
+        return [col[i] for i in src["idx"]]
+    return [fr(float(X) * src["s"] + src["o"]) for X in src["ints"]]      # the law, in binary64, for the other record
+
+
+def oracle_assign(before, after, out, a, vals, positions, s, o, grows, takes_header, label):
+    """an assignment of vals (Fractions) to axis a under the scaling (s, o) in force: to the whole column (positions None; the record
+    grows first when the route allows it) or to the points `positions`"""
+    n = len(before["ints"][0])
+    m = len(vals)
+    if s is None or o is None or s == 0 or any(v is None for v in vals):
+        return None
+    cols = before["ints"]
+    mismatch = False
+    if positions is None:
+        if grows and m > n:
+            cols = [c + [0] * (m - n) for c in cols]
+        elif m != n and m != 0:
+            mismatch = True                 # cannot be broadcast
+        positions = list(range(m))
+    elif m != len(positions):
+        mismatch = True
+    if takes_header and (after["rs"] != before["hs"] or after["ro"] != before["ho"]):
+        return (f"assign scaling ({label})", "after the assignment the record does not use the header's scaling")
+    if not takes_header and (after["rs"] != before["rs"] or after["ro"] != before["ro"] or after["hs"] != before["hs"] or after["ho"] != before["ho"]):
+        return (f"assign changed the scaling ({label})", "the assignment changed the scaling of the record or of the header")
+    if m == 0:
+        if out[0] == "err":
+            return (f"assign raised ({label})", f"an empty value raised {out[1]}: {out[2]}")
+        return None if after["ints"] == before["ints"] else (f"assign empty modified ({label})", "an empty value changed the integers")
+    qs = [(v - o) / s for v in vals]
+    tols = [abs(q) * Fraction(1, 2 ** 51) for q in qs]
+    certainly_fit = all(INT_MIN <= rhe(q - t) and rhe(q + t) <= INT_MAX for q, t in zip(qs, tols))
+    certainly_out = any((rhe(q - t) > INT_MAX and rhe(q + t) > INT_MAX) or (rhe(q - t) < INT_MIN and rhe(q + t) < INT_MIN) for q, t in zip(qs, tols))
+    if out[0] == "err":
+        if not ((out[1] == "EOverflow" and not certainly_fit) or (out[1] == "EValue" and mismatch)):
+            if out[1] == "EOverflow":
+                return (f"assign refused ({label})", "OverflowError although every value fits: " + ", ".join(show(q) for q in qs[:4]))
+            return (f"assign raised ({label})", f"raised {out[1]}: {out[2]}")
+        if after["ints"] != before["ints"]:
+            return (f"assign failed modified ({label})", f"integers changed although {out[1]} was raised")
+        return None
+    if mismatch:
+        return (f"assign mismatch accepted ({label})", f"{m} values were accepted for {len(positions) if positions else n} points")
+    if certainly_out:
+        return (f"assign wrapped ({label})", f"a value that does not fit was stored: {after['ints'][a]} for (v - offset) / scale = "
+                + ", ".join(show(q) for q in qs[:6]))
+    if [len(c) for c in after["ints"]] != [len(c) for c in cols]:
+        return (f"assign length ({label})", f"{len(after['ints'][a])} points after assigning {m} values to a record of {n}")
+    want = {}
+    for pos, q, tl in zip(positions, qs, tols):
+        want[pos] = (q, tl)                     # a repeated index: the last value wins
+    for i, X in enumerate(after["ints"][a]):
+        if i in want:
+            q, tl = want[i]
+            if abs(Fraction(X) - q) > Fraction(1, 2) + tl:
+                return (f"assign half step ({label})", f"axis {AX[a]} point {i} stored {X} for (v - offset) / scale = {show(q)} "
+                                                       f"(scale {float(s)!r}, offset {float(o)!r})")
+        elif X != cols[a][i]:
+            return (f"assign other point ({label})", f"point {i} of {AX[a]} changed from {cols[a][i]} to {X} although it was not assigned")
+    for b in range(3):
+        if b != a and after["ints"][b] != cols[b]:
+            return (f"assign other axis ({label})", f"assigning {AX[a]} changed the integers of {AX[b]}")
+    return None
+
+
+def oracle_session_file(out, info):
+    """the file of a closed writer / appender session against the scaling the writer was opened with and the chunks it was given"""
+    fp = out[4]
+    ws, wo = info["ws0"], info["wo0"]
+    what = f"session via {info['via']} ({info['hdr']} header)"
+    if fp["rs"] != ws or fp["ro"] != wo:
+        return (f"{what} scaling", f"the file carries the scaling {fp['rsf']} {fp['rof']}, the writer was opened with "
+                                   f"{[float(x) for x in ws]} {[float(x) for x in wo]}")
+    pre = info["pre"]
+    pos = len(pre[0])
+    total = pos + sum(len(c["ints"][0]) for c in info["chunks"])
+    if [len(c) for c in fp["ints"]] != [total] * 3:
+        return (f"{what} count", f"the file holds {len(fp['ints'][0])} points, {total} were written")
+    if [c[:pos] for c in fp["ints"]] != pre:
+        return (f"{what} existing points", "the points the file held before the appender was opened changed")
+    for j, c in enumerate(info["chunks"]):
+        cn = len(c["ints"][0])
+        seg = [col[pos:pos + cn] for col in fp["ints"]]
+        pos += cn
+        if cn == 0:
+            continue
+        if c["rs"] == ws and c["ro"] == wo:
+            if seg != c["ints"]:
+                return (f"{what} integers", f"chunk {j}: same scaling but the file's integers {seg} differ from the record's {c['ints']}")
+            continue
+        if fits_all(c["xyz"], ws, wo)[1]:
+            return (f"{what} wrapped", f"chunk {j}: a coordinate that does not fit under the writer's scaling was written ({seg})")
+        msg = rescale_check(seg, c["xyz"], ws, wo, f"chunk {j}")
+        if msg:
+            return (f"{what} half step", msg)
+    return None
+
+
+def oracle_step(op, before, out, after, info=None):
     """the property on one observed operation; returns None | (kind, message)"""
     k = op["op"]
     n = len(before["ints"][0])
@@ -885,15 +1419,61 @@ def oracle_step(op, before, out, after):
     if k == "INIT":
         return None
     if out[0] == "file":
-        r = oracle_file(out, "write" if k == "W" else f"stream via {op['via']}")
+        r = oracle_file(out, "write" if k == "W" else "session" if k == "WC" else f"stream via {op['via']}")
         if r:
             return r
-    if k in ("RS", "RO", "MS", "MO"):
+    if k in ("RS", "RO", "MS", "MO", "PRS", "PRO", "PMS", "PMO"):
         if out[0] != "none":
-            return ("header edit", f"header edit raised {out}")
+            return ("scaling edit", f"{k} raised {out}")
         if after["ints"] != before["ints"]:
-            return ("header edit", "a header edit changed the record's integers")
+            return ("scaling edit", f"{k} changed the record's integers")
         return None
+    if k in ("WO", "WE"):
+        if out[0] != "none":
+            return ("session open" if k == "WO" else "edit of the handed header", f"raised {out}")
+        ch = caller_unchanged(before, after)
+        if ch:
+            return ("caller's LasData after " + ("opening a writer" if k == "WO" else "editing the header handed to the writer"),
+                    f"{ch} of the caller's LasData changed")
+        return None
+    if k == "WW":
+        if info is None:
+            return None
+        ch = caller_unchanged(before, after)
+        if ch:
+            return ("caller's record after session write" + (" (failed)" if out[0] == "err" else ""), f"{ch} of the caller's LasData differs")
+        ws, wo = info["ws0"], info["wo0"]
+        same = before["rs"] == ws and before["ro"] == wo
+        all_fit, some_out = (True, False) if (same or n == 0) else fits_all(before["xyz"], ws, wo)
+        if out[0] == "err":
+            if out[1] != "EOverflow":
+                return (f"session write raised", f"raised {out[1]}: {out[2]}")
+            if all_fit:
+                return (f"session write refused", "OverflowError although every coordinate fits under the scaling the writer was opened with")
+        return None
+    if k == "WC":
+        if info is None:
+            return None
+        if out[0] != "file":
+            return ("session close raised", f"{out}")
+        ch = caller_unchanged(before, after)
+        if ch:
+            return ("caller's record after session close", f"{ch} of the caller's LasData differs")
+        return oracle_session_file(out, info)
+    if k == "V":
+        route, a, src = op["route"], op["axis"], op["src"]
+        label = {"attr": "las.x =", "item": "las['x'] =", "pitem": "las.points['x'] =", "pattr": "las.points.x =", "viewall": "las.x[:] =",
+                 "view": "las.x[key] ="}[route] + " " + {"vals": "array", "subfield": "sub-field view", "self": "own view", "other": "view"}[src["k"]]
+        if info and info.get("shown") is not None:
+            ref = [float(X) * src["s"] + src["o"] for X in src["ints"]]
+            if info["shown"] != ref:
+                return ("value view presented", f"the assigned view shows {info['shown']}, X*scale+offset = {ref}")
+        if info and info.get("owner_changed"):
+            return (f"assign modified the value's owner ({label})", "the record whose view was assigned changed")
+        s, o = (before["hs"][a], before["ho"][a]) if route == "attr" else (before["rs"][a], before["ro"][a])
+        positions = key_positions(op["key"], n, op.get("at", 0)) if route == "view" else None
+        return oracle_assign(before, after, out, a, src_expected(src, before), positions, s, o,
+                             route in ("attr", "item", "pitem"), route == "attr", label)
     if k in ("W", "S"):
         ch = caller_unchanged(before, after)
         if ch:
@@ -955,10 +1535,15 @@ def oracle_step(op, before, out, after):
         if k == "A" and (after["rs"] != before["hs"] or after["ro"] != before["ho"]):
             return ("assign scaling", "after las.<axis> = ... the record does not use the header's scaling")
         return None
-    if k == "X":
+    if k in ("X", "SX"):
         m = len(op["cols"][0])
         if m == 0:
             return None
+        pre = "assign xyz" if k == "X" else "assign items"
+        if k == "SX":      # las[['x', 'y', 'z']] = ...: the record's own scaling is the one in force, and stays; the header is not involved
+            if after["hs"] != before["hs"] or after["ho"] != before["ho"]:
+                return ("assign items changed the header", "las[['x', 'y', 'z']] = ... changed the header's scaling")
+            before = dict(before, hs=before["rs"], ho=before["ro"])
         grown = [c + [0] * max(0, m - n) for c in before["ints"]]
         fit, out_ = True, False
         for a in range(3):
@@ -971,25 +1556,25 @@ def oracle_step(op, before, out, after):
                 if (rhe(q - t) > INT_MAX and rhe(q + t) > INT_MAX) or (rhe(q - t) < INT_MIN and rhe(q + t) < INT_MIN):
                     out_ = True
         if after["rs"] != before["hs"] or after["ro"] != before["ho"]:
-            return ("assign xyz scaling", "after las.xyz = ... the record does not use the header's scaling")
+            return (pre + " scaling", "after the assignment the record does not use the scaling in force")
         if out[0] == "err":
             if out[1] != "EOverflow":
-                return ("assign xyz raised", f"raised {out[1]}: {out[2]}")
+                return (pre + " raised", f"raised {out[1]}: {out[2]}")
             if fit:
-                return ("assign xyz refused", "OverflowError although every value fits under the header's scaling")
+                return (pre + " refused", "OverflowError although every value fits under the scaling in force")
             return None
         if out_:
-            return ("assign xyz wrapped", f"a value that does not fit was stored: {after['ints']}")
+            return (pre + " wrapped", f"a value that does not fit was stored: {after['ints']}")
         if m < n:
-            return ("assign xyz short", "a shorter array was accepted")
+            return (pre + " short", "a shorter array was accepted")
         for a in range(3):
             s, o = before["hs"][a], before["ho"][a]
             if len(after["ints"][a]) != max(m, n):
-                return ("assign xyz length", f"{len(after['ints'][a])} points after assigning {m} to a record of {n}")
+                return (pre + " length", f"{len(after['ints'][a])} points after assigning {m} to a record of {n}")
             for X, v in zip(after["ints"][a], op["cols"][a]):
                 q = (Fraction(v) - o) / s
                 if abs(Fraction(X) - q) > Fraction(1, 2) + abs(q) * Fraction(1, 2 ** 51):
-                    return ("assign xyz half step", f"axis {AX[a]} stored {X} for (v - offset) / scale = {show(q)} under the header's scaling "
+                    return (pre + " half step", f"axis {AX[a]} stored {X} for (v - offset) / scale = {show(q)} under the scaling in force "
                                                    f"(scale {float(s)!r}, offset {float(o)!r})")
         return None
     if k == "C":
@@ -1026,27 +1611,30 @@ _PRES = None       # [(s, o, X, axis, got)]
 _HIST = None       # [History]
 
 
-def elem_cases(ctx):
-    rng = ctx.rng
+def elem_cases(rng, count):
     out = []
-    for _ in range(ctx.n(6000, 60000)):
+    for _ in range(count):
         s, o = gen_scale(rng), gen_offset(rng)
         v, tag = gen_value(rng, s, o)
         axis = rng.randrange(3)
         how = rng.choice(["attr", "attr", "scalar", "index", "mask", "list"])
         res, untouched = impl_store(s, o, v, axis, how)
         out.append((s, o, v, axis, how, tag, res, untouched))
+    return out
+
+
+def elem_witnesses():
     # the regression witness of the unsound scaled-domain check
+    out = []
     for how in ("attr", "index"):
         res, untouched = impl_store(1e-9, 1e9, 1000000002.1474837, 0, how)
         out.append((1e-9, 1e9, 1000000002.1474837, 0, how, "edge-hi", res, untouched))
     return out
 
 
-def pres_cases(ctx):
-    rng = ctx.rng
+def pres_cases(rng, count):
     out = []
-    for _ in range(ctx.n(1500, 10000)):
+    for _ in range(count):
         s, o = gen_scale(rng), gen_offset(rng)
         X = rng.choice([0, 1, -1, INT_MAX, INT_MIN, INT_MAX - 1, INT_MIN + 1, rng.randrange(INT_MIN, INT_MAX + 1), rng.randrange(-1000, 1000)])
         axis = rng.randrange(3)
@@ -1054,22 +1642,89 @@ def pres_cases(ctx):
     return out
 
 
-def hist_cases(ctx):
+def one_history(rng):
+    h = History(rng)
+    k = rng.randrange(1, 9)
+    i = 0
+    while i < k:
+        op = h.gen_op()
+        if op["op"] == "WO":
+            k = min(k + 4, 12)      # room for chunks, edits and the close
+        h.apply(op)
+        i += 1
+    if h.sess is not None:
+        h.apply({"op": "WC"})
+    return h
+
+
+def _worker(args):
+    """the observations of one worker process (its own seeded generator); only data comes back, no laspy object"""
+    import random
+    kind, seed, count = args
+    rng = random.Random(seed)
+    if kind == "elem":
+        return elem_cases(rng, count)
+    if kind == "pres":
+        return pres_cases(rng, count)
     out = []
-    for _ in range(ctx.n(1500, 12000)):
-        h = History(ctx.rng)
-        for _ in range(ctx.rng.randrange(1, 9)):
-            h.apply(h.gen_op())
+    for _ in range(count):
+        h = one_history(rng)
+        h.las = h.rng = h.sess = None
+        h.vinfo = None
         out.append(h)
+    global _MMAP_PATH
+    if _MMAP_PATH is not None:
+        import os
+        if os.path.exists(_MMAP_PATH):
+            os.remove(_MMAP_PATH)
+        _MMAP_PATH = None
     return out
+
+
+WORKERS = 4
+
+
+def all_cases(ctx):
+    """per-element stores, presented values and histories, observed on the implementation by WORKERS processes
+    (each with a generator seeded from ctx.rng: the whole run is a function of the seed)"""
+    def split(kind, total, k):
+        return [(kind, ctx.rng.randrange(2 ** 62), total // k + (1 if i < total % k else 0)) for i in range(k)]
+    jobs = split("hist", ctx.n(2000, 12000), 2 * WORKERS) + split("elem", ctx.n(6000, 60000), 2) + split("pres", ctx.n(1500, 10000), 1)
+    try:
+        import multiprocessing
+        with multiprocessing.get_context("fork").Pool(WORKERS) as pool:
+            parts = pool.map(_worker, jobs, chunksize=1)
+    except Exception as ex:      # no worker processes here: the same observations, one after the other
+        ctx.notes.append(f"observations made in one process ({common.exc_kind(ex)})")
+        parts = [_worker(j) for j in jobs]
+    got = {"hist": [], "elem": [], "pres": []}
+    for (kind, _, _), part in zip(jobs, parts):
+        got[kind].extend(part)
+    return got["elem"] + elem_witnesses(), got["pres"], got["hist"]
+
+
+def run_model_parallel(lines):
+    """the model driver on slices of the command list, concurrently (the commands are independent of each other)"""
+    if len(lines) < 200:
+        return common.run_model(lines, name="c11")
+    from concurrent.futures import ThreadPoolExecutor
+    w = 2 * WORKERS
+    chunks = [lines[i::w] for i in range(w)]          # dealt round-robin: the long history commands are spread evenly
+    with ThreadPoolExecutor(w) as ex:
+        outs = list(ex.map(lambda c: common.run_model(c, name="c11"), chunks))
+    res = [None] * len(lines)
+    for i, o in enumerate(outs):
+        res[i::w] = o
+    return res
 
 
 def observe(ctx):
     global _ELEM, _PRES, _HIST
     if _ELEM is None:
-        _ELEM = elem_cases(ctx)
-        _PRES = pres_cases(ctx)
-        _HIST = hist_cases(ctx)
+        import time
+        t0 = time.time()
+        _ELEM, _PRES, _HIST = all_cases(ctx)
+        ctx.extra["c11_observe_s"] = round(time.time() - t0, 1)
 
 
 def correspond(ctx):
@@ -1081,6 +1736,12 @@ def correspond(ctx):
         "replaced by a fresh array, header.<axis>_scale/_offset edited in place, las.<axis> = values (also longer than the record: it grows), "
         "las.xyz = (m, 3) array, las.points.<axis> = values, "
         "change_scaling(scales?, offsets?), write, stream into a writer or appender with another scaling, whole or in chunks of 1..2} "
+        "+ round 4: an open writer/appender session {open with the LasData's header or a header the caller keeps, via laspy.open / LasWriter / "
+        "append mode on a file with 0..2 points; chunks; in-place (x_scale =, scales[i] =) and replacing edits of the caller's header, of the "
+        "handed header, of the record's scaling (points.scales = / [i] =); close} interleaved with everything else; assignments by every route "
+        "{las.x =, las['x'] =, las.points['x'] =, las.points.x =, las.x[:] =, las.x[int|slice|mask|list] =, las[['x','y','z']] =} of every kind of value "
+        "{array, list, tuple, float32, scalar, own view / reversed / fancy, view or slice of another LasData / record on the same grid, "
+        "the same step and another origin, another step; sub-field view} "
         "on LasData of 0..5 points (formats 0,1,3,6,7) with integers including INT_MIN/INT_MAX; values chosen relative to the scaling "
         "in force so that most fit and some overflow. after every operation (hence also while a header scale/offset edit is pending) "
         "the coordinates are taken through every presentation route: las.x, las['x'], las.points.x, las.points['x'], las.xyz, the scaled "
@@ -1108,7 +1769,10 @@ def correspond(ctx):
                         if key not in fpos:
                             fpos[key] = len(fcmds)
                             fcmds.append(f"present {X} {ftok(float(key[1]))} {ftok(float(key[2]))}")
-    outs = common.run_model(cmds + hcmds + fcmds, name="c11")
+    import time
+    t0 = time.time()
+    outs = run_model_parallel(cmds + hcmds + fcmds)
+    ctx.extra["c11_model_s"] = round(time.time() - t0, 1)
     fouts = outs[len(cmds) + len(hcmds):]
     for (s, o, v, axis, how, tag, res, unt), mo in zip(_ELEM, outs):
         ctx.traces += 1
@@ -1139,19 +1803,35 @@ def correspond(ctx):
             ctx.count("op:" + kd)
         rescaled = False
         bad = None
-        if len(parts) != len(h.steps) + 1:
+        toks = [h.op_tok(op) for op, _, _ in h.steps]
+        if len(parts) != sum(x is not None for x in toks) + 1:
             bad = (0, "model output", line[:200], "")
         else:
             d0 = state_diff(parse_state(parts[0]), h.snap0)
             if d0:
                 bad = (0, "initial " + d0, parts[0][:200], str(h.snap0.get(d0, [r_ for r_ in h.snap0["routes"] if r_[0] in d0][:1]))[:200])
         if bad is None:
-            for i, ((op, out, after), part) in enumerate(zip(h.steps, parts[1:])):
+            # an operation the model has no token for (the caller edits the header object it handed to a writer) must change nothing
+            aligned, j, prev = [], 1, parts[0]
+            for x in toks:
+                if x is None:
+                    aligned.append("- # " + prev)
+                else:
+                    aligned.append(parts[j])
+                    prev = parts[j].split(" # ")[1]
+                    j += 1
+            for i, ((op, out, after), part) in enumerate(zip(h.steps, aligned)):
                 mo_out, mo_state = part.split(" # ")
                 mo = parse_out(mo_out)
                 ctx.count("out:" + (mo[1] if mo[0] == "err" else mo[0]))
                 if mo[0] == "err" or (mo[0] == "file" and mo[1]["ints"] != after["ints"]):
                     rescaled = True
+                if op["op"] == "V":
+                    ctx.count("assign:" + op["route"] + " <- " + op["src"]["k"] + ("" if op["src"]["k"] != "other" else
+                              " same grid" if (op["src"]["s"], op["src"]["o"]) == (scale_in_force(op, h, i)) else
+                              " same scale" if op["src"]["s"] == scale_in_force(op, h, i)[0] else " other scale"))
+                if op["op"] in ("WW", "WC", "WO") and h.steps[i][1][0] != "err":
+                    ctx.count("session:" + op["op"] + (":" + op["via"] + ":" + op["hdr"] if op["op"] == "WO" else ""))
                 if op["op"] in ("W", "S"):
                     ctx.count("write:" + ("overflow" if mo[0] == "err" else "empty" if not after["ints"][0] else
                                           "same scaling" if (mo[1]["scales"], mo[1]["offsets"]) == (after["rs"], after["ro"]) else "rescaled"))
@@ -1179,9 +1859,9 @@ def correspond(ctx):
                     if d:
                         bad = (i, f"file of {op['op']}: {d}", str(mx)[:200], str([r_ for r_ in fp["routes"] if r_[0] in d][:1])[:200])
                         break
-        edited = any(k in ("RS", "RO", "MS", "MO") for k in kinds)
-        ctx.case(h.command(), nontrivial=rescaled or (edited and any(k in ("A", "X", "W", "S", "C") for k in kinds)),
-                 sample={"history": [h.op_tok(op)[:60] for op, _, _ in h.steps], "points": h.n})
+        edited = any(k in ("RS", "RO", "MS", "MO", "PRS", "PRO", "PMS", "PMO", "WE") for k in kinds)
+        ctx.case(h.command(), nontrivial=rescaled or (edited and any(k in ("A", "X", "W", "S", "C", "V", "SX", "WW", "WC") for k in kinds)),
+                 sample={"history": [(h.op_tok(op) or op["op"])[:60] for op, _, _ in h.steps], "points": h.n})
         if bad:
             dis.append({"kind": f"history: {bad[1]}", "input": {"init": init_json(h.init), "ops": [op_json(op) for op, _, _ in h.steps], "at": bad[0]},
                         "model": bad[2], "impl": bad[3]})
@@ -1212,8 +1892,10 @@ def history_failure(init, ops, kind=None):
     h = History(random.Random(0), init=init)
     for op in ops:
         h.apply(op)
-    for (op, before, out, after) in h.obs:
-        r = oracle_step(op, before, out, after)
+    if h.sess is not None:
+        h.apply({"op": "WC"})
+    for (op, before, out, after, info) in h.obs:
+        r = oracle_step(op, before, out, after, info)
         if r and (kind is None or r[0] == kind):
             return r
     return None
@@ -1250,8 +1932,8 @@ def search(ctx, seeds):
         if why:
             add("presented value", {"what": "present", "scale": s.hex(), "offset": o.hex(), "X": X, "axis": axis}, why)
     for h in _HIST:
-        for (op, before, out, after) in h.obs:
-            r = judged(oracle_step, op, before, out, after)
+        for (op, before, out, after, info) in h.obs:
+            r = judged(oracle_step, op, before, out, after, info)
             if r:
                 kind = "history: " + r[0]
                 if kind in seen:
